@@ -27,6 +27,10 @@ THEOREMS = ["NfcVerif.C17." + t for t in [
     "reachable_invariant", "addr_unique", "link_keeps_table",
     "close_frees", "close_keeps_shared", "names_live",
     "resolve_exact", "connect_by_name_exact", "connect_by_name_absent", "datagram_delivery",
+    "simulation_step", "simulation", "spec_keeps_invariant", "spec_reachable_invariant",
+    "spec_addr_unique", "spec_names_live", "spec_bind_rule", "api_bind_rule",
+    "spec_close_frees", "api_close_frees",
+    "queued_datagram_source", "datagram_end_to_end", "recvfrom_returns",
 ]]
 
 SN = b"urn:nfc:sn:"
@@ -503,7 +507,7 @@ def run(ck):
         "the first answer to be exact and later answers to repeat it",
         "histories that reach F39 (non-connection PDU routed to an established data link connection: the real dispatch "
         "never returns) or I-PDU traffic are cut at that operation (reported as 'abort' by model and harness alike)",
-        "the model is of the code with fixes/C17/*.patch applied (F8, F9); F22 is modelled as found",
+        "the model is of the code with fixes/C17/*.patch (F8, F9) and the double-close repair (repo commit ed1b4fb) applied; F22 is modelled as found",
     ]
     ck.trusted += ["hand-written Lean models NfcVerif.Model.Sap / NfcVerif.Model.SapLink, tied by differential runs",
                    "harness/sims/sap_pair.py (wait() -> pump, first-free transaction id), harness/props/c17.py (RefTable oracle)"]
